@@ -613,7 +613,7 @@ Fixpoint all_nodes_list (g : expr -> bool) (hf : bool) (l : list expr) : bool :=
 Lemma equiv_binary o l l' r r' : equiv en l' l -> equiv en r' r -> equiv en (EBinary o l' r') (EBinary o l r).
 Proof.
   intros El Er h. destruct o; simpl; rewrite (El h); destruct (evalS en l h) as [[[v|] h1]|]; simpl; auto;
-    try (rewrite (Er h1); reflexivity); destruct v as [| | | |[]| |]; auto; rewrite (Er h1); reflexivity.
+    try (rewrite (Er h1); reflexivity); destruct v as [| | | |[]| | | |]; auto; rewrite (Er h1); reflexivity.
 Qed.
 
 Lemma has_floats_binary_eq o l r :
